@@ -99,6 +99,14 @@ JReachDist(r) ==
   (*  alternatively (u,v)=0"                                                              *)
   Chk("RIffPathExists", r.R = RPlusOf(n, DP), "ok")))))
 
+(* input class of a failing record: matrix powers taken in an integer type whose range   *)
+(* the walk counts leave (only the layered family gets there)                             *)
+RdClass(r) ==
+  IF r.dt \in {"int8", "uint8", "int16", "int32", "int64"} /\ r.n <= 127
+     /\ LET C == RW!ClipTab(r.n, Bin(r.n, r.A), r.n, RW!T24) IN        \* n * 2^24 < 2^31
+        \E k \in 1..r.n : \E i, j \in 1..r.n : C[k][i][j] >= RW!T24
+  THEN "integer_dtype_walk_counts_beyond_2^24" ELSE "any"
+
 (* ------------------------------------------------------- search_information ------- *)
 JSearchInfo(r) ==
   LET n == r.n  Lm == r.Lm
@@ -110,7 +118,7 @@ JSearchInfo(r) ==
       mem == r.mem = 1
       reach == {p \in OffPairs(n) : At(DD, p) < INF}
       fits(p) == \A q \in At(MP, p) : SiFits(smax, Len(q) - 1)
-      judged == {p \in reach : fits(p) /\ At(r.X3, p) < INF}
+      judged == {p \in reach : fits(p)}
       formulas(q) == IF mem THEN {ProbMemRenorm(W, str, q), ProbMemToolbox(W, str, q)}
                      ELSE {ProbPlain(W, str, q)}
   IN
@@ -262,7 +270,7 @@ Judge(r) ==
   CASE r.kind = "findpaths" -> <<JFindpaths(r), "na", "any">>
     [] r.kind = "cycprob"   -> <<JCycprob(r), "na", "any">>
     [] r.kind = "breadth"   -> <<JBreadth(r), DBreadth(r), "any">>
-    [] r.kind = "rd"        -> <<JReachDist(r), "na", "any">>
+    [] r.kind = "rd"        -> LET c == JReachDist(r) IN <<c, "na", IF c = "ok" THEN "any" ELSE RdClass(r)>>
     [] r.kind = "si"        -> <<JSearchInfo(r), DSearchInfo(r),
                                  SymClass(r.n, r.Lm) \o "_" \o ReachClass(r.n, r.Lm)>>
     [] r.kind = "pt"        -> <<JPathTrans(r), "na", ReachClass(r.n, r.Lm)>>
